@@ -174,7 +174,7 @@ fn gds_lib(g: &Graph, listing: &[usize], rng: &mut Rng) -> GdsLibrary {
     let mut lib = GdsLibrary::new("lib");
     // in small graphs one array reference is a real array: 256 x 256, 512 x 128, 1024 x 64 ... (bit-cell arrays; the product of the two
     // 16-bit counts is a multiple of 65536) or 255 x 257, 181 x 181 - once per library, since the importer expands it
-    let mut big_left = if g.len() <= 12 && rng.chance(1, 12) { 1 } else { 0 };
+    let mut big_left = if !cfg!(miri) && g.len() <= 12 && rng.chance(1, 12) { 1 } else { 0 }; // (not under the interpreter: 65 536 placements take it an hour)
     for &i in listing {
         let mut s = GdsStruct::new(gname(g, i));
         s.elems.push(GdsElement::GdsBoundary(GdsBoundary { layer: 1, datatype: 0, xy: GdsPoint::vec(&[(0, 0), (2, 0), (2, 2), (0, 2), (0, 0)]), ..Default::default() }));
